@@ -531,6 +531,11 @@ def _single_use_temps(fn, counts):
                     stores.setdefault(x, []).extend([n, n])
             elif isinstance(n, ast.ExceptHandler) and n.name:
                 stores.setdefault(n.name, []).append(n)
+            elif isinstance(n, FUNC + (ast.ClassDef,)) and n is not fn:
+                stores.setdefault(n.name, []).append(n)
+            elif isinstance(n, (ast.Import, ast.ImportFrom)):
+                for a in n.names:
+                    stores.setdefault((a.asname or a.name).split(".")[0], []).append(n)
         for holder, fld, block in blocks_of(fn):
             for i in range(len(block) - 1):
                 st, nxt = block[i], block[i + 1]
